@@ -145,7 +145,7 @@ def run_marmot(ctx, rt, *, invariants, properties=(), view, mc, profiles, nontri
     nontriv = set()
     samples = []
     events = 0
-    traces_dir = os.path.join(rt.OUT, "traces")
+    traces_dir = os.path.join(rt.OUT, "traces" if rt.REPO == "/repo" else "traces_alt_%d" % os.getpid())
     os.makedirs(traces_dir, exist_ok=True)
     cfg_text = TRACE_CFG + "".join("INVARIANT %s\n" % i for i in invariants) + "".join("PROPERTY %s\n" % p for p in properties)
     plist = profiles.get(tier, profiles["quick"])
@@ -266,8 +266,9 @@ def core_profiles(extra=None, n=10, steps=40):
     q = [dict(n=n, steps=steps, backend="mem", regime="causal", profile="core"),
          dict(n=n, steps=steps, backend="sql", regime="causal", profile="core"),
          dict(n=n, steps=steps + 10, backend="mixed", regime="causal", retention=2, profile="members"),
-         dict(n=n, steps=steps + 10, backend="sql", regime="causal", profile="members")]
-    t = []
+         dict(n=n, steps=steps + 10, backend="sql", regime="causal", profile="members"),
+         dict(n=12, backend="mixed", profile="fork")]
+    t = [dict(n=60, backend=["mem", "sql", "mixed"][i % 3], profile="fork", retention=[5, 3, 6][i % 3]) for i in range(3)]
     for i in range(10):
         t.append(dict(n=50, steps=60, backend=["mem", "sql", "mixed"][i % 3], regime="causal",
                       retention=[5, 2, 1, 3][i % 4], profile=["core", "members"][i % 2]))
@@ -409,7 +410,7 @@ def plan_C14(ctx, rt):
         prof = dict(prof)
         if not ctx.get("replay"):
             prof["seed"] = seed * 1000 + pi
-        tr = os.path.join(rt.OUT, "traces", "%s_%s_%d.ndjson" % (pid, tier, pi))
+        tr = os.path.join(rt.OUT, "traces" if rt.REPO == "/repo" else "traces_alt_%d" % os.getpid(), "%s_%s_%d.ndjson" % (pid, tier, pi))
         os.makedirs(os.path.dirname(tr), exist_ok=True)
         argv = " ".join("%s=%s" % kv for kv in prof.items())
         rc, out = rt.sh("%s rand %s %s" % (rt.BIN, tr, argv), timeout=3600, env={"VERIF_DEV": ",".join(dev)})
